@@ -215,7 +215,13 @@ func (t *translator) pureMethodCall(c *ast.CallExpr, ev *env) (string, bool) {
 func (t *translator) worldAssign(x *ast.AssignStmt, set, typ string, ev *env, cont func(*env) string) string {
 	rhs := x.Rhs[0]
 	if t.mayPanic(rhs, ev) {
-		unsup(x, "assignment into the world of an expression that can panic")
+		// the value first (its outcome is propagated, the world it leaves is the one written to)
+		if _, isOpt := t.a.optOf[typ]; isOpt {
+			unsup(x, "assignment into the world of an expression that can panic")
+		}
+		return t.exprK(rhs, ev, typ, func(v string) string {
+			return "(let w := " + set + " " + v + " w in\n" + cont(ev) + ")"
+		})
 	}
 	val := t.pure(rhs, ev, typ)
 	if base, isOpt := t.a.optOf[typ]; isOpt && !isNil(rhs) {
@@ -345,11 +351,25 @@ func (t *translator) innerRange(x *ast.RangeStmt, ev *env, cont func(*env) strin
 		"\n | (Panicked " + pv + ", w) => (Panicked " + pv + ", w)\n | (OutOfFuel, w) => (OutOfFuel, w)\n end)"
 }
 
+func selectorChain(e ast.Expr) bool {
+	switch v := e.(type) {
+	case *ast.Ident:
+		return true
+	case *ast.SelectorExpr:
+		return selectorChain(v.X)
+	}
+	return false
+}
+
 // switch { case c1: A  case c2: B  default: C }  is  if c1 { A } else if c2 { B } else { C }
 // (no tag, no init, no fallthrough, no break inside: Go's break would leave the switch)
 func (t *translator) switchAsIf(x *ast.SwitchStmt) ast.Stmt {
-	if x.Init != nil || x.Tag != nil {
-		unsup(x, "switch with an init statement or a tag")
+	if x.Init != nil {
+		unsup(x, "switch with an init statement")
+	}
+	if x.Tag != nil && !selectorChain(x.Tag) {
+		// switch tag { case v: } is  if tag == v { }: the tag is repeated, so it must be a variable or a field path
+		unsup(x, "switch on a tag that is not a variable or a field path")
 	}
 	var clauses []*ast.CaseClause
 	var deflt *ast.CaseClause
@@ -381,9 +401,15 @@ func (t *translator) switchAsIf(x *ast.SwitchStmt) ast.Stmt {
 	}
 	for i := len(clauses) - 1; i >= 0; i-- {
 		cc := clauses[i]
-		cond := cc.List[0]
+		test := func(c ast.Expr) ast.Expr {
+			if x.Tag == nil {
+				return c
+			}
+			return &ast.BinaryExpr{X: x.Tag, Op: token.EQL, Y: c, OpPos: c.Pos()}
+		}
+		cond := test(cc.List[0])
 		for _, c := range cc.List[1:] {
-			cond = &ast.BinaryExpr{X: cond, Op: token.LOR, Y: c, OpPos: c.Pos()}
+			cond = &ast.BinaryExpr{X: cond, Op: token.LOR, Y: test(c), OpPos: c.Pos()}
 		}
 		els = &ast.IfStmt{If: cc.Pos(), Cond: cond, Body: &ast.BlockStmt{List: cc.Body}, Else: els}
 	}
